@@ -54,12 +54,13 @@ INTS_T = [3, 13, 255, 256, 1023, 1024, 1025, 32767, 32768, 65535, 65536, 2**32 -
 STRLENS = [0, 1, 15, 16, 17, 255, 256, 4096]
 LISTS = {
     "empty": lambda: [], "0": lambda: [0], "0123": lambda: [0, 1, 2, 3], "neg1": lambda: [-1],
-    "1023": lambda: [1023], "1024": lambda: [1024], "2p31": lambda: [2**31],
+    "1023": lambda: [1023], "1024": lambda: [1024], "2p31": lambda: [2**31], "2p32": lambda: [2**32], "2p32p1": lambda: [2**32 + 1],
+    "n2p32": lambda: [-2**32], "2p40": lambda: [2**40],
     "2p63": lambda: [2**63], "n2p63": lambda: [-2**63], "str": lambda: ["a"],
     "none": lambda: [None], "float": lambda: [1.5], "big": lambda: list(range(2000)),
     "2p64": lambda: [2**64], "dup": lambda: [0, 0, 0], "nested": lambda: [[0]],
 }
-LISTS_Q = ["empty", "0", "0123", "neg1", "1023", "1024", "2p31", "2p63", "n2p63", "str", "none", "big"]
+LISTS_Q = ["empty", "0", "0123", "neg1", "1023", "1024", "2p31", "2p32", "2p32p1", "n2p32", "2p40", "2p63", "n2p63", "str", "none", "big"]
 
 
 class _EvilGetitem:
@@ -970,9 +971,18 @@ class Worker:
             out = ["ok", type(v).__name__]
         except Exception as e:  # noqa: BLE001
             out = ["exc", type(e).__name__]
+        viol = []
+        if out[0] == "ok" and fn == "linux.proc_cpu_affinity_set" and len(args) == 2 and args[0] == self.child \
+                and isinstance(args[1], (list, tuple)) and all(type(x) is int for x in args[1]):
+            # integer conversion: a successful call may only ever enable CPUs that were named
+            got = set(os.sched_getaffinity(self.child))
+            if not got <= set(args[1]):
+                viol.append(("wrong-effect:proc_cpu_affinity_set:cpu-number-truncated",
+                             "proc_cpu_affinity_set(child, %r) succeeded and the kernel mask is now %r" % (args[1], sorted(got))))
+            os.sched_setaffinity(self.child, os.sched_getaffinity(0))
         key = "%s(%s)->%s" % (fn, ",".join(shape(t) for t in case["args"]) + (",kw" if case.get("kw") else ""),
                               ":".join(out))
-        return {"out": out, "viol": [], "key": key}
+        return {"out": out, "viol": viol, "key": key}
 
     # ---------------------------------------------------------------- part B
     def run_B(self, case):
